@@ -24,6 +24,52 @@ ASSUMPTIONS = [
 ]
 
 
+def check_policy_siblings(s, rule="C04.9"):
+    """Sibling agreement inside the MLP actor-critic policy: action_and_value (used while collecting) and evaluate_action (used by the
+    losses) build value and action distribution by identical sub-graphs - features, head, MASK - and reduce the log-probability alike."""
+    P = s.prog
+    b3 = s.builder(inline=set())
+    nz3 = Normalizer(b3)
+    pol = "MLPActorCriticPolicy"
+    pa = one(s.paths(b3, pol, "action_and_value"), f"{pol}.action_and_value")
+    pe = one(s.paths(b3, pol, "evaluate_action"), f"{pol}.evaluate_action")
+    pv = one(s.paths(b3, pol, "value"), f"{pol}.value")
+    con9 = f"siblings({pol}.action_and_value, evaluate_action, value)"
+    loc9 = s.loc(pol, "action_and_value")
+    if all(isinstance(x.ret, tuple) and x.ret[0] == "tuple" for x in (pa, pe, pv)) and len(pa.ret[1]) == 4 and len(pe.ret[1]) == 4:
+        _, a_act, a_val, a_lp = pa.ret[1]
+        _, e_val, e_lp, e_ent = pe.ret[1]
+        s.ob(rule, con9, nz3.canon(a_val) == nz3.canon(e_val) == nz3.canon(pv.ret[1][1]),
+             "value is computed by the same sub-graph in action_and_value, evaluate_action and value", loc9, key="value-sibling",
+             detail=f"{show(a_val, maxlen=160)} | {show(e_val, maxlen=160)} | {show(pv.ret[1][1], maxlen=160)}",
+             necessary_for="the stored value is the policy's own value for exactly that observation")
+        # distribution node: receiver of sample_and_log_prob / log_prob
+        sl = [x for x in walk(a_lp) if isinstance(x, tuple) and x and x[0] == "call" and isinstance(x[1], tuple) and x[1][0] == "attr"
+              and x[1][2] == "sample_and_log_prob"]
+        lp = [x for x in walk(e_lp) if isinstance(x, tuple) and x and x[0] == "call" and isinstance(x[1], tuple) and x[1][0] == "attr"
+              and x[1][2] == "log_prob"]
+        ok = len(sl) == 1 and len(lp) == 1
+        s.ob(rule, con9, ok, "one sample_and_log_prob call / one log_prob call", loc9, key="logprob-calls", detail=f"{len(sl)}/{len(lp)}")
+        if ok:
+            s.ob(rule, con9, nz3.canon(sl[0][1][1]) == nz3.canon(lp[0][1][1]),
+                 "both methods build the action distribution (features, head, mask) by identical sub-graphs", loc9, key="dist-sibling",
+                 detail=f"{show(sl[0][1][1], maxlen=200)} | {show(lp[0][1][1], maxlen=200)}",
+                 necessary_for="re-evaluating the stored sample reproduces the stored log-probability")
+            s.ob(rule, con9, a_act == ("item", sl[0], 0), "the returned action is element 0 of the sample_and_log_prob call whose element 1 is reduced to the log-prob",
+                 loc9, key="action-of-logprob", detail=show(a_act, maxlen=160))
+            X = ("param", "$lp")
+            ra = replace_nodes(a_lp, {("item", sl[0], 1): X})
+            re_ = replace_nodes(e_lp, {lp[0]: X})
+            s.ob(rule, con9, nz3.canon(ra) == nz3.canon(re_) and X in set(walk(ra)),
+                 "the per-component log-probabilities are reduced by the same function in both methods", loc9, key="reduction-sibling",
+                 detail=f"{show(ra, maxlen=160)} | {show(re_, maxlen=160)}")
+            _, _, fl = s.method("AbstractDistribution", "log_prob") if P.has_cls("AbstractDistribution") else (None, None, None)
+            s.ob(rule, con9, len(lp[0][2]) == 1 and lp[0][2][0] == ("param", "action"), "evaluate_action scores the `action` argument", loc9,
+                 key="evaluate-action-arg", detail=show(lp[0], maxlen=160))
+    else:
+        raise AnalysisError(f"{pol}: unexpected return shapes")
+
+
 def check(s):
     P = s.prog
     cls = "AbstractActorCriticOnPolicyAlgorithm"
@@ -162,46 +208,7 @@ def check(s):
         s.ob("C04.8", f"{cname}.per_step", pp.ret == ("param", "step_state"), "per_step returns the step state unchanged", s.loc(cname, "per_step"),
              key="per-step-identity", detail=show(pp.ret, maxlen=100))
     # ---- C04.9 sibling agreement inside the MLP policy
-    b3 = s.builder(inline=set())
-    nz3 = Normalizer(b3)
-    pol = "MLPActorCriticPolicy"
-    pa = one(s.paths(b3, pol, "action_and_value"), f"{pol}.action_and_value")
-    pe = one(s.paths(b3, pol, "evaluate_action"), f"{pol}.evaluate_action")
-    pv = one(s.paths(b3, pol, "value"), f"{pol}.value")
-    con9 = f"siblings({pol}.action_and_value, evaluate_action, value)"
-    loc9 = s.loc(pol, "action_and_value")
-    if all(isinstance(x.ret, tuple) and x.ret[0] == "tuple" for x in (pa, pe, pv)) and len(pa.ret[1]) == 4 and len(pe.ret[1]) == 4:
-        _, a_act, a_val, a_lp = pa.ret[1]
-        _, e_val, e_lp, e_ent = pe.ret[1]
-        s.ob("C04.9", con9, nz3.canon(a_val) == nz3.canon(e_val) == nz3.canon(pv.ret[1][1]),
-             "value is computed by the same sub-graph in action_and_value, evaluate_action and value", loc9, key="value-sibling",
-             detail=f"{show(a_val, maxlen=160)} | {show(e_val, maxlen=160)} | {show(pv.ret[1][1], maxlen=160)}",
-             necessary_for="the stored value is the policy's own value for exactly that observation")
-        # distribution node: receiver of sample_and_log_prob / log_prob
-        sl = [x for x in walk(a_lp) if isinstance(x, tuple) and x and x[0] == "call" and isinstance(x[1], tuple) and x[1][0] == "attr"
-              and x[1][2] == "sample_and_log_prob"]
-        lp = [x for x in walk(e_lp) if isinstance(x, tuple) and x and x[0] == "call" and isinstance(x[1], tuple) and x[1][0] == "attr"
-              and x[1][2] == "log_prob"]
-        ok = len(sl) == 1 and len(lp) == 1
-        s.ob("C04.9", con9, ok, "one sample_and_log_prob call / one log_prob call", loc9, key="logprob-calls", detail=f"{len(sl)}/{len(lp)}")
-        if ok:
-            s.ob("C04.9", con9, nz3.canon(sl[0][1][1]) == nz3.canon(lp[0][1][1]),
-                 "both methods build the action distribution (features, head, mask) by identical sub-graphs", loc9, key="dist-sibling",
-                 detail=f"{show(sl[0][1][1], maxlen=200)} | {show(lp[0][1][1], maxlen=200)}",
-                 necessary_for="re-evaluating the stored sample reproduces the stored log-probability")
-            s.ob("C04.9", con9, a_act == ("item", sl[0], 0), "the returned action is element 0 of the sample_and_log_prob call whose element 1 is reduced to the log-prob",
-                 loc9, key="action-of-logprob", detail=show(a_act, maxlen=160))
-            X = ("param", "$lp")
-            ra = replace_nodes(a_lp, {("item", sl[0], 1): X})
-            re_ = replace_nodes(e_lp, {lp[0]: X})
-            s.ob("C04.9", con9, nz3.canon(ra) == nz3.canon(re_) and X in set(walk(ra)),
-                 "the per-component log-probabilities are reduced by the same function in both methods", loc9, key="reduction-sibling",
-                 detail=f"{show(ra, maxlen=160)} | {show(re_, maxlen=160)}")
-            _, _, fl = s.method("AbstractDistribution", "log_prob") if P.has_cls("AbstractDistribution") else (None, None, None)
-            s.ob("C04.9", con9, len(lp[0][2]) == 1 and lp[0][2][0] == ("param", "action"), "evaluate_action scores the `action` argument", loc9,
-                 key="evaluate-action-arg", detail=show(lp[0], maxlen=160))
-    else:
-        raise AnalysisError(f"{pol}: unexpected return shapes")
+    check_policy_siblings(s, "C04.9")
     # ---- C04.10 lowering of lerax.utils.filter_cond / filter_scan (shared rule: rules/lowering.py)
     from .lowering import check_lowering
     check_lowering(s, "C04.10")
